@@ -1,4 +1,5 @@
 import H2T.Lemmas.FitsBlock
+import H2T.Props.C04
 import H2T.Lemmas.SubCompose
 import H2T.Lemmas.ListCompose
 
@@ -183,5 +184,66 @@ theorem itemLines_cons (cfg : Cfg) (d : Deco) (w' : Nat) (first : Nat → List C
 /-! non-vacuity: a quote at width 10 with the plain decorator -/
 example : (SubR.widthMinus { width := 10 } {} (dispW Deco.plain.quotePrefix)
     ((sizeOf Deco.plain 3 (.box {} .quote [.text {} (strCh "hello world")])).minW - dispW Deco.plain.quotePrefix)).toOption = some 8 := by decide +kernel
+
+/-! ## composition with the wrapping theorem: a paragraph inside a prefixed block -/
+
+open H2T.Spec H2T.C04 in
+/-- the characters of a prefixed line are the prefix followed by the line's characters -/
+theorem rlineChars_prefixLine (tag : Tag) (p : List Ch) (l : RLine) :
+    rlineChars (prefixLine tag p l) = p ++ rlineChars l := by
+  have happ : ∀ a b : TLine, rlineChars (.text (a ++ b)) = rlineChars (.text a) ++ rlineChars (.text b) := by
+    intro a b; simp only [rlineChars, List.filterMap_append]
+  have hmap : ∀ (q : List Ch), rlineChars (.text (q.map fun c => Elt.cell ⟨c, tag⟩)) = q := by
+    intro q
+    induction q with
+    | nil => rfl
+    | cons a r ih =>
+      have : rlineChars (.text ((a :: r).map fun c => Elt.cell ⟨c, tag⟩)) = a :: rlineChars (.text (r.map fun c => Elt.cell ⟨c, tag⟩)) := by
+        simp only [rlineChars, List.map_cons, List.filterMap_cons]
+      rw [this, ih]
+  cases l with
+  | text tl =>
+    simp only [prefixLine]
+    by_cases h : p.isEmpty = true
+    · simp only [h, if_true]
+      simp only [List.isEmpty_iff] at h; subst h; rfl
+    · have h' : p.isEmpty = false := by simpa using h
+      simp only [h', Bool.false_eq_true, if_false]
+      rw [happ, hmap]
+  | rule b t =>
+    simp only [prefixLine, List.map_append]
+    rw [happ, hmap, hmap]; rfl
+
+theorem zipPrefix_same (tag : Tag) (p : List Ch) (ls : List RLine) : zipPrefix tag p p ls = ls.map (prefixLine tag p) := by
+  cases ls <;> rfl
+
+open H2T.Spec H2T.C04 in
+/-- **a quoted paragraph is the quote mark in front of the greedy lines at the narrower width**: C07's compositionality and
+    C04's refinement together — for the tree `blockquote[p[text]]`, every decorator, default wrapping options: the lines
+    are `quotePrefix ++ l` for the lines `l` the reference wrapper produces at the width `width_minus` grants, or the
+    reference's error -/
+theorem quoted_paragraph_is_prefixed_greedy (cfg : Cfg) (d : Deco) (w w' : Nat) (s : List Ch) (hfn : cfg.footnotes = false) (hw : w ≠ 0)
+    (hww : cfg.wrapWidth = none) (hpad : cfg.padBlocks = false) (hov : cfg.overflow = false)
+    (hw' : SubR.widthMinus { width := w } cfg (dispW d.quotePrefix)
+      ((sizeOf d cfg.minWrap (.box {} .quote [.box {} .block [.text {} s]])).minW - dispW d.quotePrefix) = .ok w') (hw'0 : 1 ≤ w')
+    (hpos : ∀ wd ∈ words s, 0 < lwc wd) :
+    (renderTree cfg d w (.box {} .quote [.box {} .block [.text {} s]])).map (fun ls => ls.map rlineChars) =
+      (greedy w' (words s)).map (fun ls => ls.map (d.quotePrefix ++ ·)) := by
+  rw [quote_is_prefixed_content cfg d w w' _ hfn hw hw' (by omega)]
+  have hcont : renderTree cfg d w' (.box {} .container [.box {} .block [.text {} s]]) = renderTree cfg d w' (.box {} .block [.text {} s]) := by
+    unfold renderTree
+    simp only [compile_container, compileList, List.append_nil]
+  rw [hcont]
+  have hg := paragraph_is_greedy cfg d w' hw'0 hww hpad hov s hpos
+  rw [← hg]
+  -- every line of a paragraph is a text line, so the prefix lands in front of its characters
+  cases hr : renderTree cfg d w' (.box {} .block [.text {} s]) with
+  | error e => rfl
+  | ok ls =>
+    simp only [Except.map, zipPrefix_same, List.map_map]
+    congr 1
+    apply List.map_congr_left
+    intro l _
+    exact rlineChars_prefixLine [] d.quotePrefix l
 
 end H2T.C07
